@@ -134,4 +134,103 @@ def plainEntries : List (Key × Node) → List (Key × Node)
   | (k, c) :: es => (k, c.plain) :: plainEntries es
 end
 
+/-! ## Histories on plain data (C03 `history_refines`)
+
+The plain-data model knows three elementary edits; none of them looks at an anchor. -/
+
+inductive POp
+  /-- every node whose address satisfies `T` becomes the scalar `s` -/
+  | put (T : Addr → Bool) (s : Scalar)
+  /-- the nodes at the addresses `S` are removed -/
+  | remove (S : List Addr)
+  /-- the node at address `q` is replaced by `sub` -/
+  | graft (q : Addr) (sub : Node)
+
+def POp.apply (pd : Node) : POp → Node
+  | .put T s => pd.mapAt (fun y _ => T y) (putScalar s)
+  | .remove S => pd.removeAll S
+  | .graft q sub => pd.graftAt (fun _ => sub) q
+
+def runPlain : Node → List POp → Node
+  | pd, [] => pd
+  | pd, o :: os => runPlain (o.apply pd) os
+
+/-- Mapping keys are pairwise different, everywhere in the document (true of every loaded YAML
+document; it makes every node reachable by its address). -/
+def keysDistinct : List Key → Bool
+  | [] => true
+  | k :: ks => !ks.contains k && keysDistinct ks
+
+mutual
+def Node.keysNodup : Node → Bool
+  | .seq _ items => keysNodupList items
+  | .map _ es => keysDistinct (es.map Prod.fst) && keysNodupEntries es
+  | .set _ _ => true
+  | .scalar _ _ => true
+def keysNodupList : List Node → Bool
+  | [] => true
+  | c :: cs => c.keysNodup && keysNodupList cs
+def keysNodupEntries : List (Key × Node) → Bool
+  | [] => true
+  | (_, c) :: es => c.keysNodup && keysNodupEntries es
+end
+
+/-- The addresses of the nodes of `d` that satisfy `p` — as a predicate on addresses alone. -/
+def targetsAt (d : Node) (p : Addr → Node → Bool) : Addr → Bool :=
+  fun y => match d.get? y with
+    | some n => p y n
+    | none => false
+
+/-- The plain-data reading of one `_update_node` call for the matched address `a` in the document
+`d`: the node at `a` and the nodes carrying its anchor name (its aliases) become `s`. -/
+def stepAbs (d : Node) (a : Addr) (s : Scalar) : POp :=
+  .put (fun y => !(a == []) && targetsAt d (isRef a ((d.get? a).bind Node.anchor)) y) s
+
+/-- the scalar `make_new_node` writes in the step for `a` (`null` when the step writes nothing) -/
+def stepScalar (v : Scalar) (fmt : Fmt) (d : Node) (a : Addr) : Scalar :=
+  match d.get? a with
+  | some n => (match newScalar n.anchor.isSome v fmt with
+    | .ok s => s
+    | .error _ => .null)
+  | none => .null
+
+/-- the plain-data reading of a whole `set_value`: one `put` per matched address, in order -/
+def setAbs (v : Scalar) (fmt : Fmt) : Node → List Addr → List POp
+  | _, [] => []
+  | d, a :: rest => stepAbs d a (stepScalar v fmt d a) ::
+      (match setStep v fmt d a with
+       | .ok d' => setAbs v fmt d' rest
+       | .error _ => [])
+
+/-- the document after one operation of a history (a failing operation changes nothing) -/
+def Op.step (d : Node) (op : Op) : Node :=
+  match op.apply d with
+  | .ok d' => d'
+  | .error _ => d
+
+/-- `OpAbs d op pops`: on plain data, the operation `op` performed in the (anchored) document `d`
+is the sequence `pops` of elementary edits. -/
+inductive OpAbs : Node → Op → List POp → Prop
+  | failed {d : Node} {op : Op} {e : Err} : op.apply d = .error e → OpAbs d op []
+  | set {d d' : Node} {addrs : List Addr} {v : Scalar} {fmt : Fmt} :
+      setValue v fmt d addrs = .ok d' → OpAbs d (.set addrs v fmt) (setAbs v fmt d addrs)
+  | delete {d : Node} {addrs : List Addr} : [] ∉ addrs → OpAbs d (.delete addrs) [.remove addrs]
+  | createNone {d d' : Node} {segs : List PSeg} {v : Scalar} {fmt : Fmt} {leaf : Scalar} {r : Created} :
+      wrapType v = .ok leaf → d.createPath leaf segs = .ok r → r.doc = d →
+      setStep v fmt d r.addr = .ok d' →
+      OpAbs d (.create segs v fmt) [stepAbs d r.addr (stepScalar v fmt d r.addr)]
+  | created {d d' : Node} {segs : List PSeg} {v : Scalar} {fmt : Fmt} {leaf : Scalar} {r : Created}
+      {pre : List PSeg} {seg : PSeg} {rest : List PSeg} {q : Addr} {n n' : Node} :
+      wrapType v = .ok leaf → d.createPath leaf segs = .ok r → segs = pre ++ seg :: rest →
+      Follows d pre q n → lookSeg n seg = .missing → createHere n seg rest leaf = .ok n' →
+      r.doc = d.graftAt (fun _ => n') q → setStep v fmt r.doc r.addr = .ok d' →
+      OpAbs d (.create segs v fmt)
+        [.graft q n'.plain, stepAbs r.doc r.addr (stepScalar v fmt r.doc r.addr)]
+
+/-- the plain-data reading of a history, operation by operation along the run -/
+inductive HistAbs : Node → List Op → List POp → Prop
+  | nil (d : Node) : HistAbs d [] []
+  | cons {d : Node} {op : Op} {ops : List Op} {pops pops' : List POp} :
+      OpAbs d op pops → HistAbs (op.step d) ops pops' → HistAbs d (op :: ops) (pops ++ pops')
+
 end Ypv
